@@ -3,6 +3,8 @@ CONSTANTS
   F <- F_noquestion_s
   PreSet <- AllPre
   KindSet <- AllKinds
+  Deep = FALSE
+  RaceSet <- NoRace
 INIT Init
 NEXT Next
 INVARIANTS VictimTruth
